@@ -59,7 +59,7 @@ pub fn serialise(recs: &[Vec<u8>], container: &str, wrap: usize, dir: &str, stem
     path
 }
 
-fn fresh(scratch: &str) -> String {
+pub fn fresh(scratch: &str) -> String {
     let d = format!("{}/case", scratch);
     let _ = std::fs::remove_dir_all(&d);
     std::fs::create_dir_all(&d).unwrap();
@@ -80,12 +80,132 @@ fn parse_points(text: &str, arity: usize) -> String {
     }
     if text.ends_with('\n') { rows.pop(); } else if !text.is_empty() { rows.push("NO-FINAL-NEWLINE".into()); }
     if text.is_empty() { rows.clear(); }
-    rows.join(";")
+    format!("{}#{}", rows.len(), rows.join(";"))
 }
 
 fn leftover(dir: &str) -> String {
     let n = std::fs::read_dir(dir).unwrap().filter(|e| e.as_ref().unwrap().file_name().to_string_lossy().starts_with("temp_kmers")).count();
     if n == 0 { "".into() } else { format!("|leftover={}", n) }
+}
+
+fn canon_counts(acgt: bool, text: &str) -> String {
+    let mut lines: Vec<(String, String)> = text.lines().map(|l| { let mut it = l.split('\t'); (it.next().unwrap_or("?").to_string(), it.next().unwrap_or("?").to_string()) }).collect();
+    if acgt { lines.sort(); } else { lines.sort_by_key(|(k, c)| (k.parse::<u64>().unwrap_or(u64::MAX), c.clone())); }
+    lines.iter().map(|(k, c)| format!("{}:{}", k, c)).collect::<Vec<_>>().join(",")
+}
+
+fn canon_min(s2m: bool, text: &str) -> String {
+    if s2m {
+                // "id\tMMER:s-e\t...\t\n" ; one line per record, any order
+                let mut lines: Vec<(usize, String)> = vec![];
+                for l in text.split('\n') {
+                    if l.is_empty() { continue; }
+                    let mut f: Vec<&str> = l.split('\t').collect();
+                    if f.last() == Some(&"") { f.pop(); }
+                    let id = f[0];
+                    let runs: Vec<String> = f[1..].iter().map(|r| r.replace('-', ":")).collect();
+                    lines.push((rec_index(id), format!("{}={}", id, runs.join("+"))));
+                }
+                lines.sort();
+                lines.into_iter().map(|x| x.1).collect::<Vec<_>>().join(";")
+            } else {
+                // KEY\t[("r1", 0, 5), ("r2", 3, 9)]
+                let mut lines: Vec<(String, String)> = vec![];
+                for l in text.split('\n') {
+                    if l.is_empty() { continue; }
+                    let (key, rest) = l.split_once('\t').unwrap_or((l, ""));
+                    let inner = rest.trim_start_matches('[').trim_end_matches(']');
+                    let mut es: Vec<(usize, usize, usize, String)> = vec![];
+                    for e in inner.split("), (") {
+                        let e = e.trim_start_matches('(').trim_end_matches(')');
+                        if e.is_empty() { continue; }
+                        let f: Vec<&str> = e.split(", ").collect();
+                        let id = f[0].trim_matches('"');
+                        let (s, en): (usize, usize) = (f[1].parse().unwrap_or(usize::MAX), f[2].parse().unwrap_or(usize::MAX));
+                        es.push((rec_index(id), s, en, format!("{}:{}:{}", id, s, en)));
+                    }
+                    es.sort();
+                    lines.push((key.to_string(), format!("{}={}", key, es.into_iter().map(|x| x.3).collect::<Vec<_>>().join("+"))));
+                }
+                lines.sort();
+                lines.into_iter().map(|x| x.1).collect::<Vec<_>>().join(";")
+            }
+}
+
+/// one invocation of the kmertools binary; inputs are written under `d`, the output location is `out`
+fn cli_run(sub: &str, settings: &str, container: &str, recs_t: &str, alt_t: &str, d: &str, out: &str) -> String {
+            // cli <subcommand> <settings k=v,...> <container> <recs> <alt recs> : the binary built from the working tree
+            let bin = std::env::var("KT_CLI").unwrap_or_default();
+            if bin.is_empty() { return "NO-CLI-BINARY".into(); }
+            let recs = unhex_list(recs_t);
+            let alt = unhex_list(alt_t);
+            let st: Vec<(String, String)> = if settings == "_" { vec![] } else {
+                settings.split(',').map(|e| { let mut it = e.splitn(2, '='); (it.next().unwrap().to_string(), it.next().unwrap_or("").to_string()) }).collect() };
+            let get = |k: &str| st.iter().find(|(a, _)| a == k).map(|(_, v)| v.clone());
+            let long = settings.len() % 2 == 0;     // alternate between short and long option names
+            let inp = serialise(&recs, container, 60, d, "in");
+            let stdin_input = get("in").as_deref() == Some("-");
+            
+            let mut argv: Vec<String> = vec![];
+            let opt = |argv: &mut Vec<String>, s: &str, l: &str, v: Option<String>| { if let Some(v) = v { argv.push(if long { l.to_string() } else { s.to_string() }); argv.push(v); } };
+            let flag = |argv: &mut Vec<String>, s: &str, l: &str, on: bool| { if on { argv.push(if long { l.to_string() } else { s.to_string() }); } };
+            let on = |k: &str| get(k).as_deref() == Some("1");
+            match sub {
+                "oligo" => {
+                    argv.extend(["comp", "oligo"].map(String::from));
+                    opt(&mut argv, "-i", "--input", Some(if stdin_input { "-".into() } else { inp.clone() }));
+                    opt(&mut argv, "-o", "--output", Some(out.to_string()));
+                    opt(&mut argv, "-k", "--k-size", get("k")); opt(&mut argv, "-p", "--preset", get("p")); opt(&mut argv, "-t", "--threads", get("t"));
+                    flag(&mut argv, "-c", "--counts", on("c")); flag(&mut argv, "-H", "--header", on("H"));
+                }
+                "cgr" => {
+                    argv.extend(["comp", "cgr"].map(String::from));
+                    opt(&mut argv, "-i", "--input", Some(inp.clone())); opt(&mut argv, "-o", "--output", Some(out.to_string()));
+                    opt(&mut argv, "-k", "--k-size", get("k")); opt(&mut argv, "-v", "--vec-size", get("v")); opt(&mut argv, "-t", "--threads", get("t"));
+                    flag(&mut argv, "-c", "--counts", on("c"));
+                }
+                "cov" => {
+                    argv.push("cov".into());
+                    opt(&mut argv, "-i", "--input", Some(inp.clone())); opt(&mut argv, "-o", "--output", Some(out.to_string()));
+                    opt(&mut argv, "-k", "--k-size", get("k")); opt(&mut argv, "-s", "--bin-size", get("s")); opt(&mut argv, "-c", "--bin-count", get("b"));
+                    opt(&mut argv, "-m", "--memory", get("m")); opt(&mut argv, "-p", "--preset", get("p")); opt(&mut argv, "-t", "--threads", get("t"));
+                    if on("a") { let ap = serialise(&alt, "fa", 0, d, "alt"); opt(&mut argv, "-a", "--alt-input", Some(ap)); }
+                    if on("c") { argv.push("--counts".into()); }
+                }
+                "min" => {
+                    argv.push("min".into());
+                    opt(&mut argv, "-i", "--input", Some(inp.clone())); opt(&mut argv, "-o", "--output", Some(out.to_string()));
+                    opt(&mut argv, "-m", "--m-size", get("m")); opt(&mut argv, "-w", "--w-size", get("w")); opt(&mut argv, "-p", "--preset", get("p")); opt(&mut argv, "-t", "--threads", get("t"));
+                }
+                "ctr" => {
+                    argv.push("ctr".into());
+                    opt(&mut argv, "-i", "--input", Some(inp.clone())); opt(&mut argv, "-o", "--output", Some(out.to_string()));
+                    opt(&mut argv, "-k", "--k-size", get("k")); opt(&mut argv, "-m", "--memory", get("m")); opt(&mut argv, "-t", "--threads", get("t"));
+                    flag(&mut argv, "-a", "--acgt", on("a"));
+                }
+                _ => return "UNKNOWN-SUBCOMMAND".into(),
+            }
+            let mut cmd = std::process::Command::new(&bin);
+            cmd.args(&argv).stderr(std::process::Stdio::piped()).stdout(std::process::Stdio::piped());
+            if stdin_input { cmd.stdin(std::fs::File::open(&inp).unwrap()); } else { cmd.stdin(std::process::Stdio::null()); }
+            let res = match cmd.output() { Ok(r) => r, Err(e) => return format!("SPAWN-FAILED {}", e) };
+            let code = res.status.code().unwrap_or(-1);
+            let exists = std::path::Path::new(out).exists();
+            let read = |f: &str| std::fs::read(f).ok();
+            let text = |f: &str| String::from_utf8_lossy(&read(f).unwrap_or_default()).to_string();
+            let payload = if !exists { "NOOUT".to_string() } else {
+                match sub {
+                    "oligo" => hex(&read(out).unwrap_or_default()),
+                    "cgr" => if get("k").is_some() { parse_points(&text(out), 3) } else { parse_points(&text(out), 2) },
+                    "cov" => match read(&format!("{}/kmers.vectors", out)) { Some(b) => format!("{}{}", hex(&b), leftover(out)), None => "NOVECTORS".into() },
+                    "min" => canon_min(get("p").as_deref() != Some("m2s"), &text(out)),
+                    "ctr" => match read(&format!("{}/kmers.counts", out)) { Some(b) => format!("{}{}", canon_counts(on("a"), &String::from_utf8_lossy(&b)), leftover(out)), None => "NOCOUNTS".into() },
+                    _ => "?".into(),
+                }
+            };
+            // whole-sequence CGR may refuse a record with a non-nucleotide byte (it does so by panicking)
+            if sub == "cgr" && get("k").is_none() && code != 0 && code != 2 { return "exit=0|ERR".into(); }
+            format!("exit={}|{}", code, payload)
 }
 
 fn rec_index(id: &str) -> usize { id.trim_start_matches('r').parse().unwrap_or(usize::MAX) }
@@ -143,9 +263,7 @@ pub fn exec(p: &[&str], scratch: &str) -> String {
             c.set_acgt_output(p[4] == "1");
             c.count(); c.merge(true);
             let text = String::from_utf8(std::fs::read(format!("{}/kmers.counts", od)).unwrap()).unwrap();
-            let mut lines: Vec<(String, String)> = text.lines().map(|l| { let mut it = l.split('\t'); (it.next().unwrap_or("?").to_string(), it.next().unwrap_or("?").to_string()) }).collect();
-            if p[4] == "1" { lines.sort(); } else { lines.sort_by_key(|(k, c)| (k.parse::<u64>().unwrap_or(u64::MAX), c.clone())); }
-            format!("{}{}", lines.iter().map(|(k, c)| format!("{}:{}", k, c)).collect::<Vec<_>>().join(","), leftover(&od))
+            format!("{}{}", canon_counts(p[4] == "1", &text), leftover(&od))
         }
         "cov" => {
             // cov k bs bc norm delim threads flush container recs altrecs   (altrecs "=" : same file)
@@ -157,13 +275,43 @@ pub fn exec(p: &[&str], scratch: &str) -> String {
             c.set_norm(p[4] == "1");
             c.set_delim(String::from_utf8(unhex(p[5])).unwrap());
             let t: usize = p[6].parse().unwrap(); if t > 0 { c.set_threads(t); }
-            // the row writer flushes when total >= (memory as u64) * 2^30: 0.5 -> after every record
-            c.set_max_memory(if p[7] == "1" { 0.5 } else { 6.0 });
+            // the row writer flushes when total >= (memory as u64) * 2^30: below 1 GB -> after every record;
+            // the same ceiling drives the counter: 5e-8 GB makes it count in many chunks and partitions
+            c.set_max_memory(if p[7] == "1" { if recs.len() % 2 == 0 { 0.5 } else { 0.00000005 } } else { 6.0 });
             let alt = unhex_list(p[10]);
             if alt != recs { c.set_kmer_path(serialise(&alt, "fa", 0, &d, "alt")); }
             c.build_table().unwrap();
             c.compute_coverages();
             format!("{}{}", hex(&std::fs::read(format!("{}/kmers.vectors", od)).unwrap()), leftover(&od))
+        }
+        "cli" => {
+            let d = fresh(scratch);
+            cli_run(p[1], p[2], p[3], p[4], p[5], &d, &format!("{}/out", d))
+        }
+        "hist" => {
+            // hist <plant> (<sub> <settings> <container> <recs> <alt>)+ : several runs sharing ONE output location;
+            // plant=1 leaves stale temp chunk files of a bigger earlier run in the directory before the last run.
+            // The result is that of the last run and must equal the same run alone in a fresh location.
+            let d = fresh(scratch);
+            let out = format!("{}/out", d);
+            let runs: Vec<&[&str]> = p[2..].chunks(5).collect();
+            let mut last = String::new();
+            for (i, r) in runs.iter().enumerate() {
+                if r.len() < 5 { return "BAD-HISTORY".into(); }
+                let di = format!("{}/run{}", d, i); std::fs::create_dir_all(&di).unwrap();
+                if i + 1 == runs.len() && p[1] == "1" && (r[0] == "ctr" || r[0] == "cov") {
+                    std::fs::create_dir_all(&out).unwrap();
+                    for part in 0..20 { for chunk in 0..4 {
+                        std::fs::write(format!("{}/temp_kmers.part_{}_chunk_{}", out, part, chunk), format!("{}\t7\n{}\t3\n", part, part + 100)).unwrap();
+                    } }
+                    std::fs::write(format!("{}/kmers.counts", out), "1\t1\n2\t2\n").unwrap();
+                    std::fs::write(format!("{}/kmers.vectors", out), "stale stale stale\n".repeat(50)).unwrap();
+                }
+                last = cli_run(r[0], r[1], r[2], r[3], r[4], &di, &out);
+                // a refused run must leave the previous result in place: compare only accepted last runs
+            }
+            // stale planted chunk files are not this run's temp files: they may stay, but must not be merged
+            match last.find("|leftover=") { Some(ix) if p[1] == "1" => last[..ix].to_string(), _ => last }
         }
         "read" => {
             // read <file name> <expected format> <members> <expected records>
@@ -196,41 +344,7 @@ pub fn exec(p: &[&str], scratch: &str) -> String {
             let (w, m, t): (usize, usize, usize) = (p[1].parse().unwrap(), p[2].parse().unwrap(), p[3].parse().unwrap());
             if p[0] == "s2m" { misc::minimisers::seq_to_min(w, m, &inp, &out, t); } else { misc::minimisers::bin_sequences(w, m, &inp, &out, t); }
             let text = String::from_utf8(std::fs::read(&out).unwrap()).unwrap();
-            if p[0] == "s2m" {
-                // "id\tMMER:s-e\t...\t\n" ; one line per record, any order
-                let mut lines: Vec<(usize, String)> = vec![];
-                for l in text.split('\n') {
-                    if l.is_empty() { continue; }
-                    let mut f: Vec<&str> = l.split('\t').collect();
-                    if f.last() == Some(&"") { f.pop(); }
-                    let id = f[0];
-                    let runs: Vec<String> = f[1..].iter().map(|r| r.replace('-', ":")).collect();
-                    lines.push((rec_index(id), format!("{}={}", id, runs.join("+"))));
-                }
-                lines.sort();
-                lines.into_iter().map(|x| x.1).collect::<Vec<_>>().join(";")
-            } else {
-                // KEY\t[("r1", 0, 5), ("r2", 3, 9)]
-                let mut lines: Vec<(String, String)> = vec![];
-                for l in text.split('\n') {
-                    if l.is_empty() { continue; }
-                    let (key, rest) = l.split_once('\t').unwrap_or((l, ""));
-                    let inner = rest.trim_start_matches('[').trim_end_matches(']');
-                    let mut es: Vec<(usize, usize, usize, String)> = vec![];
-                    for e in inner.split("), (") {
-                        let e = e.trim_start_matches('(').trim_end_matches(')');
-                        if e.is_empty() { continue; }
-                        let f: Vec<&str> = e.split(", ").collect();
-                        let id = f[0].trim_matches('"');
-                        let (s, en): (usize, usize) = (f[1].parse().unwrap_or(usize::MAX), f[2].parse().unwrap_or(usize::MAX));
-                        es.push((rec_index(id), s, en, format!("{}:{}:{}", id, s, en)));
-                    }
-                    es.sort();
-                    lines.push((key.to_string(), format!("{}={}", key, es.into_iter().map(|x| x.3).collect::<Vec<_>>().join("+"))));
-                }
-                lines.sort();
-                lines.into_iter().map(|x| x.1).collect::<Vec<_>>().join(";")
-            }
+            canon_min(p[0] == "s2m", &text)
         }
         _ => crate::sched::exec(p, scratch),
     }
